@@ -11,7 +11,7 @@ import os, sys, json, subprocess, shutil, argparse
 ap = argparse.ArgumentParser()
 ap.add_argument('prop'); ap.add_argument('seeddir'); ap.add_argument('tag')
 ap.add_argument('--tests', default=''); ap.add_argument('--tier', default='quick')
-ap.add_argument('--keep', action='store_true'); ap.add_argument('--store', action='store_true')
+ap.add_argument('--keep', action='store_true'); ap.add_argument('--store', action='store_true'); ap.add_argument('--as', dest='as_tag', default=None)
 a = ap.parse_args()
 V = os.path.dirname(os.path.dirname(os.path.abspath(__file__)))
 wt = '/tmp/seedchk/%s_%s' % (a.prop, a.tag)
@@ -66,7 +66,7 @@ finally:
     # restore generated constants / evidence to the real tree's
     subprocess.run(['/venv/bin/python', os.path.join(V, 'harness', 'gen_constants.py')], capture_output=True)
 if a.store and res.get('confirmed'):
-    d = os.path.join(V, 'seeded', '%s-%s' % (a.prop, a.tag))
+    d = os.path.join(V, 'seeded', '%s-%s' % (a.prop, a.as_tag or a.tag))
     os.makedirs(d, exist_ok=True)
     shutil.copy(os.path.join(a.seeddir, '%s.diff' % a.tag), os.path.join(d, 'patch.diff'))
     shutil.copy(os.path.join(a.seeddir, 'demo_%s.py' % a.tag), os.path.join(d, 'demo.py'))
